@@ -458,7 +458,8 @@ impl<L: Language, N: Analysis<L>> EGraph<L, N> {
     /// Returns the canonical e-node corresponding to `i`.
     pub fn get_syn_node(&self, i: &AppliedId) -> L {
         let syn = &self.classes[&i.id].syn_enode;
-        syn.apply_slotmap(&i.m)
+        // the argument slots of `i` may coincide with the names of slots bound in `syn`.
+        syn.refresh_private().apply_slotmap(&i.m)
     }
 }
 
